@@ -38,6 +38,23 @@ pub fn out() -> std::io::BufWriter<std::io::StdoutLock<'static>> {
     std::io::BufWriter::with_capacity(1 << 20, std::io::stdout().lock())
 }
 
+/// For families that call printing routines of the implementation: the harness output goes to a duplicate
+/// of the original standard output, and file descriptor 1 is pointed at /dev/null for the rest of the run.
+pub fn out_detached() -> std::io::BufWriter<std::fs::File> {
+    extern "C" {
+        fn dup(fd: i32) -> i32;
+        fn dup2(a: i32, b: i32) -> i32;
+    }
+    use std::os::unix::io::{AsRawFd, FromRawFd};
+    let null = std::fs::OpenOptions::new().write(true).open("/dev/null").expect("/dev/null");
+    // SAFETY: plain POSIX descriptor duplication; `saved` is owned by the returned File
+    let saved = unsafe { dup(1) };
+    assert!(saved >= 0);
+    let r = unsafe { dup2(null.as_raw_fd(), 1) };
+    assert!(r >= 0);
+    std::io::BufWriter::with_capacity(1 << 20, unsafe { std::fs::File::from_raw_fd(saved) })
+}
+
 pub fn finish(mut w: impl Write) {
     w.flush().unwrap();
 }
